@@ -67,7 +67,8 @@ pub fn run_stdout(bin: &PathBuf, tag: &str, file: &[u8], args: &str, timeout: Du
         .arg(format!("--args={}", args))
         .arg("-m")
         .arg("--log")
-        .arg("off")
+        // the log goes to stderr; what it says (and whether it says anything) must not change stdout or the status
+        .arg(super::logctl::NAMES[super::logctl::current().min(5) as usize])
         .env_remove("RUST_LOG")
         .env("RUST_BACKTRACE", "0")
         .stdin(Stdio::null())
@@ -127,9 +128,11 @@ pub fn run_tcp(bin: &PathBuf, tag: &str, file: &[u8], args: &str, extra_lines: &
         .arg("-p")
         .arg(port.to_string())
         .arg("--log")
-        .arg("off")
-        // every other run also echoes the messages on the console (-m): what goes over the socket is the same
+        .arg(super::logctl::NAMES[super::logctl::current().min(5) as usize])
+        // every other run also echoes the messages on the console (-m), one in four traces the instructions there
+        // (-i): what goes over the socket is the same
         .args(if port % 2 == 1 { vec!["-m"] } else { vec![] })
+        .args(if port % 4 >= 2 { vec!["-i"] } else { vec![] })
         .env_remove("RUST_LOG")
         .env("RUST_BACKTRACE", "0")
         .stdin(Stdio::null())
@@ -138,6 +141,14 @@ pub fn run_tcp(bin: &PathBuf, tag: &str, file: &[u8], args: &str, extra_lines: &
         .spawn()
         .map_err(|e| RealErr::Inconclusive(format!("spawn {}: {}", bin.display(), e)))?;
     let deadline = Instant::now() + timeout;
+    // the log (stderr) is drained while the run goes on: a talkative level must not fill the pipe and stall the child
+    let se_thread = child.stderr.take().map(|mut se| {
+        std::thread::spawn(move || {
+            let mut v = vec![];
+            let _ = se.read_to_end(&mut v);
+            String::from_utf8_lossy(&v).to_string()
+        })
+    });
     let cleanup = |child: &mut Child, path: &PathBuf| {
         let _ = child.kill();
         let _ = child.wait();
@@ -195,10 +206,7 @@ pub fn run_tcp(bin: &PathBuf, tag: &str, file: &[u8], args: &str, extra_lines: &
         lines.push(format!("{}<unterminated>", String::from_utf8_lossy(&buf)));
     }
     let status = wait_deadline(&mut child, deadline.max(Instant::now() + Duration::from_secs(2)));
-    let mut stderr = String::new();
-    if let Some(mut se) = child.stderr.take() {
-        let _ = se.read_to_string(&mut stderr);
-    }
+    let stderr = se_thread.and_then(|t| t.join().ok()).unwrap_or_default();
     let _ = std::fs::remove_file(&path);
     Ok(RealOut { status: status?, stdout: vec![], stderr, lines })
 }
@@ -219,8 +227,9 @@ pub fn run_tcp_dialog(bin: &PathBuf, tag: &str, file: &[u8], pre_lines: &[String
         .arg("-p")
         .arg(port.to_string())
         .arg("--log")
-        .arg("off")
+        .arg(super::logctl::NAMES[super::logctl::current().min(5) as usize])
         .args(if port % 2 == 1 { vec!["-m"] } else { vec![] })
+        .args(if port % 4 >= 2 { vec!["-i"] } else { vec![] })
         .env_remove("RUST_LOG")
         .env("RUST_BACKTRACE", "0")
         .stdin(Stdio::null())
